@@ -85,6 +85,17 @@ Theorem C06_lower_bound_day_composed : forall (x : day_in (T:=R)) (n : nat),
   Forall (fun o' => forall i, (i < n)%nat -> nth i (di_wmin x) 0 / 3 <= get 0 (wo_wg1 o') i) (do_outs o).
 Proof. exact day_lower_composed_lemma. Qed.
 
+(* the upper bound at EVERY sub-step of the composed day, unconditionally (only the array shapes): field capacity plus
+   the capillary term that sub-step applied to that layer *)
+Theorem C06_upper_bound_day_composed : forall (x : day_in (T:=R)) (n : nat),
+  day_wf x n ->
+  let o := day_water x in
+  Forall (fun o' => forall i, (i < n)%nat ->
+            get 0 (wo_wg1 o') i <= get 0 (di_w x) i
+              + (if Nat.eqb (S i) (wo_caplay o') then wo_capterm o' / 10 else 0))
+         (do_outs o).
+Proof. exact day_upper_composed_lemma. Qed.
+
 (* days WITH net evaporation: for a freely chosen evaporation profile the day-level bound is false (binary64, the
    semantics the code runs; the same input is replayed on the real kernel on every run).  Evatra's own profile
    (shares proportional to the water above the limit) is checked on every traced day and in a directed search. *)
@@ -98,6 +109,7 @@ Proof. exact evap_day_refuted_lemma. Qed.
 Print Assumptions C06_upper_bound.
 Print Assumptions C06_lower_bound_day_nonevap.
 Print Assumptions C06_lower_bound_day_composed.
+Print Assumptions C06_upper_bound_day_composed.
 Print Assumptions C06_lower_bound_day_evap_refuted.
 Print Assumptions C06_upper_bound_binary64.
 Print Assumptions C06_lower_bound_substep.
